@@ -82,15 +82,25 @@ func (p plcase) params() (allowed, retAfter int) {
 			return 0, 0
 		}
 		return n, 1
+	case "one": // members one after the other; never cancels; returns when the last one has failed
+		return n, n
 	}
 	return 0, n
+}
+
+// start: how the strategy calls its members (the model's initial state): side by side / one after the other
+func (p plcase) start() string {
+	if p.Strat == "one" {
+		return "seq"
+	}
+	return "par"
 }
 
 // ---- scripted devices
 
 type scriptDev struct {
 	cmd   chan int     // value codes; -1: fail
-	state atomic.Int32 // 0 waiting, 1 inside server.Send, 2 returned
+	state atomic.Int32 // 0 waiting, 1 inside server.Send, 2 returned - or never called (strategy One: the member's turn has not come / came after the cancellation)
 	acc   atomic.Int32 // Sends that returned nil
 	took  atomic.Int32 // a failure instruction was taken
 }
@@ -100,6 +110,7 @@ func (d *scriptDev) obs() string {
 }
 
 func (d *scriptDev) serve(ctx context.Context, send func(k int) error) error {
+	d.state.Store(0)
 	defer d.state.Store(2)
 	for {
 		select {
@@ -230,6 +241,7 @@ func runPipeline(p plcase) (o plobs) {
 	for i := range names {
 		names[i] = memberName(i)
 		devs[names[i]] = &scriptDev{cmd: make(chan int, 64)}
+		devs[names[i]].state.Store(2)
 	}
 	ctx, cancel := context.WithCancel(context.Background())
 	defer cancel()
@@ -486,7 +498,7 @@ func topFrames(g gor) string {
 
 func (p plcase) line(o plobs) string {
 	allowed, retAfter := p.params()
-	return fmt.Sprintf("pipe %s %d %d %d %s", p.Trait, p.N, allowed, retAfter, strings.Join(o.Steps, ","))
+	return fmt.Sprintf("pipe %s %d %d %d %s %s", p.Trait, p.N, allowed, retAfter, p.start(), strings.Join(o.Steps, ","))
 }
 
 func pipelineMonitor(mon *lib.Monitor, p plcase, o plobs) {
@@ -515,7 +527,7 @@ func (o plobs) bad() bool { return o.Problem != "" || len(o.Verdicts) > 0 || len
 
 // ---- generation
 
-var plStrats = []string{"all", "most", "any", "fast", "race"}
+var plStrats = []string{"all", "most", "any", "fast", "race", "one"}
 
 func plValue(trait string, r *rand.Rand) int {
 	if trait == "onoff" {
@@ -555,6 +567,39 @@ func stallCases() []plcase {
 	return out
 }
 
+// smallScripts: EVERY script of up to `maxLen` actions over the whole alphabet for up to two devices, per strategy
+// (onoff, direct topology): device i reports ON / OFF / fails, the parked Send returns nil / an error, the subscriber cancels.
+func smallScripts(maxLen int) []plcase {
+	var out []plcase
+	for n := 0; n <= 2; n++ {
+		alphabet := []string{"ok", "sf", "cc"}
+		for i := 0; i < n; i++ {
+			alphabet = append(alphabet, fmt.Sprintf("p%d:2", i), fmt.Sprintf("p%d:3", i), fmt.Sprintf("p%d:x", i))
+		}
+		var scripts [][]string
+		layer := [][]string{nil}
+		for l := 1; l <= maxLen; l++ {
+			var next [][]string
+			for _, pre := range layer {
+				for _, a := range alphabet {
+					if (a == "ok" || a == "sf") && len(pre) == 0 {
+						continue // no Send can be parked before the first report
+					}
+					next = append(next, append(append([]string(nil), pre...), a))
+				}
+			}
+			scripts = append(scripts, next...)
+			layer = next
+		}
+		for _, st := range plStrats {
+			for _, sc := range scripts {
+				out = append(out, plcase{Pipeline: true, Trait: "onoff", Topology: "direct", Strat: st, N: n, Ops: sc})
+			}
+		}
+	}
+	return out
+}
+
 func randomPipeline(r *rand.Rand) plcase {
 	p := plcase{Pipeline: true, Trait: []string{"onoff", "light"}[r.Intn(2)], Strat: plStrats[r.Intn(len(plStrats))], N: r.Intn(4)}
 	switch x := r.Intn(10); {
@@ -586,8 +631,8 @@ func randomPipeline(r *rand.Rand) plcase {
 
 func runPipelines(f lib.Flags, res *lib.Result, drv *lib.Driver, rng *rand.Rand) {
 	tie := res.Tie("group-pull-pipeline", "K4",
-		"onoffpb.Group / lightpb.Group PullX over WrapApi(scripted devices) with a subscriber whose every Send parks until the harness answers it; x {All, Most, Any, Fast, Race} x 0..3 devices; "+
-			"scripts of environment actions (device i reports a value / fails, the parked Send returns nil / an error, the subscriber cancels): the stall family (every device's lane filled: one report at the loop or held by the member closure, one inside SendMsg, one waiting; then each of 5 endings) and random scripts of up to 10 actions, every script ending with cancel + failed Send if the subscription still runs; "+
+		"onoffpb.Group / lightpb.Group PullX over WrapApi(scripted devices) with a subscriber whose every Send parks until the harness answers it; x {All, Most, Any, Fast, Race, One} x 0..3 devices; "+
+			"scripts of environment actions (device i reports a value / fails, the parked Send returns nil / an error, the subscriber cancels): EVERY script of up to 2 (thorough: 3) actions for 0..2 onoff devices per strategy; the stall family (every device's lane filled: one report at the loop or held by the member closure, one inside SendMsg, one waiting; then each of 5 endings) and random scripts of up to 10 actions, every script ending with cancel + failed Send if the subscription still runs; "+
 			"after every action, at whole-process quiescence: per device handler waiting / inside server.Send / returned and its count of Sends that returned nil, PullX running / inside the subscriber's Send / returned, the values forwarded. "+
 			"model = the Lean pipeline model (handler - wrap stream - member closure - loop; Pipe.step), asked for EVERY point of quiescence its internal steps can reach after the same action from the states compatible with the earlier observations; the observation must be one of them, and at the end the model's count of threads left (0) must equal the census of goroutines left. non-trivial = at least one device and two actions; distinct by script")
 	mon := res.Monitor("group-pull-pipeline-contract",
@@ -595,6 +640,7 @@ func runPipelines(f lib.Flags, res *lib.Result, drv *lib.Driver, rng *rand.Rand)
 			"PullX returns exactly when its outcome is decided (a Send failed, the subscriber cancelled, more devices failed than the strategy tolerates) and the subscriber's Send is not holding it; with the Send's error when a Send failed, as cancelled when only the subscriber cancelled; "+
 			"and once it has returned and the process is quiescent NO goroutine that did not exist before the case exists any more - the member closures, the goroutines of Execute, and everything started on behalf of the members behind the in-process client (device handlers, router forwarders, model Pull adapters)")
 	cases := stallCases()
+	cases = append(cases, smallScripts(f.N(2, 3))...)
 	for i := 0; i < f.N(500, 6000); i++ {
 		cases = append(cases, randomPipeline(rng))
 	}
